@@ -36,7 +36,33 @@ def p_find(q):
     return {"k": "find_types", "q": q}
 
 
+def p_find_type(q):
+    return {"k": "find_type", "q": q}
+
+
+def p_sub(c, q):
+    return {"k": "find_subclass", "c": c, "q": q}
+
+
+def p_scan(names):
+    return {"k": "find_type_by_fields", "names": list(names)}
+
+
 P_RESET = {"k": "reset"}
+
+# one indexed class whose metadata cannot be built
+U_BADONE = [L.cdef("T", ns="urn:a", bad=True, fields=[L.fdef("x")])]
+# two cold by-fields scans, each iterating the dict it published itself: thread 1
+# evicts T from the published dict, thread 0 tries to evict it again -> ValueError
+SCAN_VS_SCAN_EVICT = [1, 0, 0, 0, 0, 1, 1, 1, 1, 0]
+
+# three index entries, every class declares its namespace and is buildable:
+# a warm scan is 5 steps (staleness check + 4 x next()), a warm miss 2, a warm hit 3
+U_SCAN = [
+    L.cdef("PA", ns="urn:a", fields=[L.fdef("x")]),
+    L.cdef("PB", ns="urn:b", fields=[L.fdef("x"), L.fdef("y")]),
+    L.cdef("PC", base=0, ns="urn:a", fields=[L.fdef("z")]),
+]
 
 
 # ------------------------------------------------------------------ impl
@@ -113,9 +139,11 @@ def gen_conc(rng, tier):
     yield base(U_TWO, [p_build(0, "urn:a"), p_build(0, "urn:b")], [0, 1, 0, 1, 0, 1])
     yield base(U_ONE, [FIND, P_RESET], RESET_VS_LOOKUP, warm=True)
     yield base(U_ONE, [p_build(0), P_RESET, p_build(0)], RESET_VS_BUILD)
+    yield base(U_BADONE, [p_scan(["x"]), p_scan(["x"])], SCAN_VS_SCAN_EVICT)
+    yield base(U_ONE, [p_scan(["x"]), P_RESET], RESET_VS_LOOKUP, warm=True)
     # 2. bounded-exhaustive: all interleavings of two threads
     #    cold lookup x cold lookup over one binding class (6 x 6 steps)
-    stride = 1 if tier != "quick" else 3
+    stride = 1 if tier != "quick" else 4
     for i, s in enumerate(interleavings(6, 6)):
         if i % stride == 0:
             yield base(U_ONE, [FIND, FIND], s)
@@ -138,6 +166,25 @@ def gen_conc(rng, tier):
         yield base(U_ONE, [P_RESET, p_build(0)], s)
     for s in interleavings(3, 6):
         yield base(U_ONE, [P_RESET, FIND], s)
+    #    find_type_by_fields' scan (one step per visited entry) x lookups that miss / hit,
+    #    x find_type / find_subclass, x a cold build, x another scan; warm context
+    SCAN = p_scan(["x"])
+    for s in interleavings(5, 2):
+        yield base(U_SCAN, [SCAN, p_find("Nope")], s, warm=True)
+        yield base(U_SCAN, [SCAN, p_find_type("{urn:z}PA")], s, warm=True)
+        yield base(U_SCAN, [SCAN, p_sub(0, "{urn:a}Nope")], s, warm=True)
+    for s in interleavings(5, 3):
+        yield base(U_SCAN, [SCAN, p_find("{urn:b}PB")], s, warm=True)
+        yield base(U_SCAN, [p_scan(["x", "y"]), p_sub(0, "{urn:a}PC")], s, warm=True)
+        yield base(U_SCAN, [p_scan(["z"]), p_build(2)], s, warm=True)
+    for i, s in enumerate(interleavings(5, 5)):
+        if i % (2 * stride) == 0:
+            yield base(U_SCAN, [SCAN, p_scan(["y"])], s, warm=True)
+    #    cold / stale context: scan (10 steps) x missing lookup (7 steps): sampled
+    for _ in range(40 if tier == "quick" else 1500):
+        s = [0] * 10 + [1] * 7
+        rng.shuffle(s)
+        yield base(U_SCAN, [SCAN, p_find("Nope")], s, **rng.choice([{}, {"mods": 1, "warm_mods": 0}]))
     # 3. random: 2-5 threads, random universes, random schedules
     n = 120 if tier == "quick" else 4000
     for _ in range(n):
@@ -146,10 +193,17 @@ def gen_conc(rng, tier):
         progs = []
         for _ in range(rng.randint(2, 5)):
             r = rng.random()
-            if r < 0.45:
+            q = rng.choice(keys) if keys and rng.random() < 0.7 else rng.choice(["Nope", XS + "int", "{urn:a}A"])
+            if r < 0.35:
                 progs.append(p_build(rng.randrange(len(U) + 1), rng.choice(G.PNS)))
+            elif r < 0.55:
+                progs.append(p_find(q))
+            elif r < 0.65:
+                progs.append(p_find_type(q))
+            elif r < 0.75:
+                progs.append(p_sub(rng.randrange(len(U)), q))
             elif r < 0.93:
-                progs.append(p_find(rng.choice(keys) if keys and rng.random() < 0.8 else rng.choice(["Nope", XS + "int"])))
+                progs.append(p_scan(rng.sample(G.FNAMES, rng.choice([0, 1, 1, 2]))))
             else:
                 progs.append(P_RESET)
         sched = [rng.randrange(len(progs)) for _ in range(rng.randint(0, 50))]
@@ -201,17 +255,44 @@ CORRS = [
 
 
 # ------------------------------------------------------------------ oracles
+def _indexed(universe, loaded):
+    return [i for i, d in enumerate(universe[:loaded]) if d["model"] and d["pkg"] and d["global"] and not d["inner"]]
+
+
+def _chain_bad(universe, c):
+    while c is not None:
+        if universe[c]["bad"]:
+            return True
+        c = universe[c]["base"]
+    return False
+
+
 def covered_conc(a, msg=""):
     """C19-F2: a thread calls reset() while other threads use the context.
-    C14-F1: two build threads request the same namespace-less class under
-    different parent namespaces."""
+    C14-F1: the same namespace-less class is requested under different parent
+    namespaces (by build threads, or by a build thread and a by-fields scan,
+    which builds every indexed class with parent_ns=None).
+    C14-F3: a by-fields scan evicts an unbuildable indexed class while the
+    failing thread looks the index up by name."""
+    U = a["universe"]
     if any(p["k"] == "reset" for p in a["progs"]) and len(a["progs"]) >= 2:
         return "C19-F2"
-    seen = {}
+    scans = any(p["k"] == "find_type_by_fields" for p in a["progs"])
+    indexed = _indexed(U, a["loaded"])
+    seen = {c: None for c in indexed} if scans else {}
     for p in a["progs"]:
-        if p["k"] == "build" and p["c"] < len(a["universe"]) and not a["universe"][p["c"]]["has_ns"]:
+        if p["k"] == "build" and p["c"] < len(U) and not U[p["c"]]["has_ns"]:
             if seen.setdefault(p["c"], p["pns"]) != p["pns"]:
                 return "C14-F1"
+    m = re.match(r"thread (\d+) ", msg)
+    if m and scans and any(_chain_bad(U, c) for c in indexed):
+        failing = a["progs"][int(m.group(1))]["k"]
+        if failing in ("find_types", "find_type", "find_subclass"):
+            return "C14-F3"
+        # C19-F3: concurrent by-fields scans evict the same unbuildable class twice
+        n_scans = sum(1 for p in a["progs"] if p["k"] == "find_type_by_fields")
+        if failing == "find_type_by_fields" and n_scans >= 2 and '"err": "ValueError"' in msg:
+            return "C19-F3"
     return None
 
 
@@ -323,7 +404,17 @@ def finding_f2():
     return lookup and keyerr, f"parse thread={k0}:{v0!r} alone={alone!r}; build threads={json.dumps(outs)[:200]}"
 
 
-FINDINGS = {"C19-F2": finding_f2}
+def finding_f3():
+    """Two concurrent by-fields scans on a cold context meet an unbuildable
+    indexed class: the second eviction raises ValueError (model's schedule)."""
+    a = base(U_BADONE, [p_scan(["x"]), p_scan(["x"])], SCAN_VS_SCAN_EVICT)
+    outs, _, _ = run_forced(a)
+    alone = alone_results(a)
+    still = outs[0] == {"err": "ValueError"} and outs[1] == {"type": None} and alone == [{"type": None}, {"type": None}]
+    return still, f"threads={json.dumps(outs)} alone={json.dumps(alone)}"
+
+
+FINDINGS = {"C19-F2": finding_f2, "C19-F3": finding_f3}
 
 LEVEL_TEXT = (
     "Lean proof over all schedules of the interleaved model (atomic step = one dict/slot operation or attribute "
@@ -332,8 +423,11 @@ LEVEL_TEXT = (
     "returns the cache-free answer: every published dict object is complete), build_race_benign (every concurrent "
     "build returns the cache-free metadata, the check-then-insert race only duplicates work, no KeyError), "
     "concurrent_safe_partial, thread_progress. What remains excluded is stated and refuted: reset() racing with "
-    "lookups or builds (reset_lookup_counterexample, reset_build_counterexample; forced on the real code, known "
-    "finding C19-F2). The model is tied to /repo by replaying all interleavings of two threads (cold/stale/warm "
+    "lookups, builds or scans (reset_*_counterexample; known finding C19-F2) and concurrent by-fields scans meeting "
+    "an unbuildable indexed class (scan_eviction_counterexample; C19-F3), both forced on the real code. With "
+    "find_type_by_fields as a sequence of steps (one per next() of the values() iterator): "
+    "concurrent_safe_with_scans / scan_linearizable (the scan equals the atomic one for every schedule) and "
+    "lookups_preserve_index_keys (a complete dict object is never changed by any lookup, build or scan). The model is tied to /repo by replaying all interleavings of two threads (cold/stale/warm "
     "lookups, builds, reset, mixed) and random schedules of up to five threads on the real XmlContext."
 )
 LEVEL_NOTE = (
@@ -351,5 +445,6 @@ ASSUMPTIONS = [
     "CPython with the GIL: one dict/list/slot operation is atomic",
     "the set of loaded classes and len(sys.modules) do not change during the concurrent phase",
     "no thread calls reset() concurrently (otherwise C19-F2)",
+    "inside one step of a by-fields scan (one visited index entry) the local_names_match builds are atomic: the harness lets the scanning thread's cache operations pass without parking",
 ]
-RULE = "hand-picked schedules (the pre-repair race on cold/stale/warm contexts, reset races), then all interleavings of two threads for cold lookup x cold lookup (every 3rd in quick tier; a sample on a stale context), build x build, build x lookup, warm lookups, reset x lookup, reset x build, then seeded random schedules of 2-5 threads over random universes"
+RULE = "(scans: all interleavings of a warm by-fields scan with missing / hitting find_types, find_type, find_subclass, a cold build, another scan; sampled schedules on cold and stale contexts) hand-picked schedules (the pre-repair race on cold/stale/warm contexts, reset races), then all interleavings of two threads for cold lookup x cold lookup (every 3rd in quick tier; a sample on a stale context), build x build, build x lookup, warm lookups, reset x lookup, reset x build, then seeded random schedules of 2-5 threads over random universes"
